@@ -22,7 +22,7 @@ func xb(s string) []byte {
 	b := aHex(s)
 	out := make([]byte, len(b))
 	copy(out, b)
-	return out[:len(out):len(out)]
+	return constArg(out[:len(out):len(out)])
 }
 
 func buf(want string, n int) []byte {
@@ -153,6 +153,19 @@ func milenageDomain(e *emitter) {
 		sqn := sqnBytes(sqnNet)
 		e.op("mil_f1", hx(opc), hx(k), hx(rnd), hx(sqn), hx(amf))
 		e.op("mil_f2345", hx(opc), hx(k), hx(rnd), "1", "1", "1", "1", "1")
+		if c%4 == 0 {
+			// the same K and RAND under another operator code, back to back (and the first one again)
+			opc2 := e.bytes(16)
+			e.op("mil_f1", hx(opc2), hx(k), hx(rnd), hx(sqn), hx(amf))
+			e.op("mil_f2345", hx(opc2), hx(k), hx(rnd), "1", "1", "1", "1", "1")
+			e.op("mil_gen", hx(opc2), hx(amf), hx(k), hx(sqn), hx(rnd), "8")
+			e.op("mil_f1", hx(opc), hx(k), hx(rnd), hx(sqn), hx(amf))
+			// the same K and OPc with another RAND, and another K with the same OPc and RAND
+			rnd2, k2 := e.bytes(16), e.bytes(16)
+			e.op("mil_f2345", hx(opc), hx(k), hx(rnd2), "1", "1", "1", "1", "1")
+			e.op("mil_f2345", hx(opc), hx(k2), hx(rnd), "1", "1", "1", "1", "1")
+			e.op("mil_f1", hx(opc), hx(k2), hx(rnd), hx(sqn), hx(amf))
+		}
 		m := e.rng.Intn(32)
 		fl := func(b int) string { return strconv.Itoa((m >> uint(b)) & 1) }
 		e.op("mil_f2345", hx(opc), hx(k), hx(rnd), fl(0), fl(1), fl(2), fl(3), fl(4))
